@@ -1,4 +1,120 @@
 package main
 
+import (
+	"go/ast"
+	"strings"
+)
+
+// c12Stmt summarises one top-level statement of a function body
+func c12Stmt(st ast.Stmt) string {
+	switch v := st.(type) {
+	case *ast.DeferStmt:
+		return "defer:" + c05Expr(v.Call.Fun)
+	case *ast.ExprStmt:
+		if c, ok := v.X.(*ast.CallExpr); ok {
+			return "call:" + c05Expr(c.Fun)
+		}
+	case *ast.AssignStmt:
+		if len(v.Rhs) == 1 {
+			return "assign:" + c05Expr(v.Rhs[0])
+		}
+	case *ast.ReturnStmt:
+		parts := make([]string, len(v.Results))
+		for i, r := range v.Results {
+			parts[i] = c05Expr(r)
+		}
+		return "return:" + strings.Join(parts, ",")
+	case *ast.IfStmt:
+		s := "if:"
+		if a, ok := v.Init.(*ast.AssignStmt); ok && len(a.Rhs) == 1 {
+			s = "if-init:" + c05Expr(a.Rhs[0]) + ";"
+		}
+		s += c05Expr(v.Cond)
+		// does the branch return?
+		for _, b := range v.Body.List {
+			if r, ok := b.(*ast.ReturnStmt); ok {
+				if len(r.Results) == 1 {
+					if c, ok := r.Results[0].(*ast.CallExpr); ok {
+						s += "=>return:" + c05Expr(c.Fun)
+					} else {
+						s += "=>return:" + c05Expr(r.Results[0])
+					}
+				} else {
+					s += "=>return"
+				}
+			}
+		}
+		return s
+	}
+	return "other"
+}
+
 func factsC12() {
+	inst := "pkg/haproxy/instance.go"
+	// HAProxyUpdate: the deferred Commit comes before every write; every failed write returns at once
+	var upd []string
+	for _, st := range methodDecl(inst, "instance", "HAProxyUpdate").Body.List {
+		s := c12Stmt(st)
+		if s != "other" {
+			upd = append(upd, s)
+		}
+	}
+	addStrList("c12UpdateStmts", upd, "instance.HAProxyUpdate: top-level statements in source order")
+	// Reload: one error path
+	var rel []string
+	for _, st := range methodDecl(inst, "instance", "Reload").Body.List {
+		s := c12Stmt(st)
+		if strings.HasPrefix(s, "if") || strings.HasPrefix(s, "assign") || strings.HasPrefix(s, "return") {
+			rel = append(rel, s)
+		}
+	}
+	addStrList("c12ReloadStmts", rel, "instance.Reload: assignments, ifs and returns in source order")
+	// the reconcile retry: same queue item again after ReloadRetry, error swallowed
+	var rq []string
+	ast.Inspect(methodDecl("pkg/controller/reconciler/reconciler.go", "IngressReconciler", "Reconcile").Body, func(n ast.Node) bool {
+		if kv, ok := n.(*ast.KeyValueExpr); ok {
+			rq = append(rq, c05Expr(kv.Key)+"="+c05Expr(kv.Value))
+		}
+		return true
+	})
+	addStrList("c12ReconcileRequeue", rq, "IngressReconciler.Reconcile: fields of the returned ctrl.Result")
+	var rc []string
+	for _, c := range methodCalls("pkg/controller/reconciler/reconciler.go", "IngressReconciler", "Reconcile") {
+		if strings.HasPrefix(c, "r.") {
+			rc = append(rc, c)
+		}
+	}
+	addStrList("c12ReconcileCalls", rc, "IngressReconciler.Reconcile: calls on the receiver in source order")
+	// the reload queue worker puts the item back after a failed Reload
+	var qw []string
+	for _, c := range methodCalls("pkg/controller/services/services.go", "Services", "reloadHAProxy") {
+		if c == "s.instance.Reload" || strings.HasPrefix(c, "s.reloadQueue.") {
+			qw = append(qw, c)
+		}
+	}
+	addStrList("c12QueueWorkerCalls", qw, "Services.reloadHAProxy: Reload and reload queue calls in source order")
+	// dynamic update: commands are only sent when committed data exists
+	var dg []string
+	ast.Inspect(methodDecl("pkg/haproxy/dynupdate.go", "dynUpdater", "update").Body, func(n ast.Node) bool {
+		if a, ok := n.(*ast.AssignStmt); ok && len(a.Rhs) == 1 && len(dg) == 0 {
+			dg = append(dg, c05Expr(a.Rhs[0]))
+		}
+		return true
+	})
+	addStrList("c12DynGate", dg, "dynUpdater.update: first assignment (the gate in front of checkConfigChange)")
+	// files are written in place (no temporary file + rename): a failed write leaves the old or a truncated file
+	var osc []string
+	for _, c := range methodCalls("pkg/haproxy/template/template.go", "template", "writeToDisk") {
+		if strings.HasPrefix(c, "os.") {
+			osc = append(osc, c)
+		}
+	}
+	addStrList("c12WriteToDiskOS", osc, "template.writeToDisk: os.* calls in source order")
+	var wo []string
+	for _, c := range methodCalls("pkg/haproxy/template/template.go", "Config", "WriteOutput") {
+		if c == "t.tmpl.Execute" || c == "t.writeToDisk" {
+			wo = append(wo, c)
+		}
+	}
+	addStrList("c12WriteOutputCalls", wo, "template.Config.WriteOutput: every template is executed before the first file is written")
 }
